@@ -226,6 +226,8 @@ def alias_cases():
 
 
 def gen(tier, rng, harness, driver):
+    # call sites spelled with a NAMED signature (`%sig = type i32 (i32, ...)`): the parser's type is the callee's return type
+    sig = ["!sig.alias %s %s %s" % (site, rv, var) for site in ("call", "invoke", "callbr") for rv in ("v", "i") for var in ("0", "1")]
     n = 700 if tier == "quick" else 60000
     cases = systematic_cases() + alias_cases() + [gen_case(rng) for _ in range(n)]
     spec = C.run_lines([driver], ["typ.spec %s %s" % (k, " ".join(ts)) for k, ts in cases], shards=8)
@@ -249,7 +251,7 @@ def gen(tier, rng, harness, driver):
     for name, text, frags in catalog.round13_entries():
         if "returns-function-pointer" in name:
             lines.append("!mod.keeps %s %s" % ("\x1f".join(frags).encode().hex(), text.encode().hex()))
-    return lines
+    return lines + sig
 
 
 def extra(res, findings, tier, rng, harness, driver):
